@@ -514,6 +514,87 @@ impl World {
     }
 }
 
+#[derive(Clone)]
+struct PosOrd { owner: Pubkey, receiver: Pubkey, key: Pubkey, exec_lamports: u64 }
+
+/// narrow slice of position orders: LONG position with LONG-token collateral, no swap path
+impl World {
+    fn position_key(&self, owner: &Pubkey) -> Pubkey {
+        Pubkey::find_program_address(&[gmsol_store::states::position::Position::SEED, self.store.as_ref(), owner.as_ref(), self.market_token.as_ref(), self.long.as_ref(), &[gmsol_store::states::position::PositionKind::Long as u8]], &gmsol_store::ID).0
+    }
+    fn trade_event_key(&self) -> Pubkey {
+        Pubkey::find_program_address(&[gmsol_store::events::TradeData::SEED, self.store.as_ref(), self.keeper.as_ref(), &0u16.to_le_bytes()], &gmsol_store::ID).0
+    }
+    fn increase_params(&self, collateral: u64, size: u128, acceptable: Option<u128>, exec_lamports: u64) -> gmsol_store::ops::order::CreateOrderParams {
+        gmsol_store::ops::order::CreateOrderParams { kind: gmsol_utils::order::OrderKind::MarketIncrease, decrease_position_swap_type: None, execution_lamports: exec_lamports,
+            swap_path_length: 0, initial_collateral_delta_amount: collateral, size_delta_value: size, is_long: true, is_collateral_long: true, min_output: None,
+            trigger_price: None, acceptable_price: acceptable, should_unwrap_native_token: false, valid_from_ts: None }
+    }
+    fn prepare_position(&mut self, owner: Pubkey) -> std::result::Result<(), (ProgramError, bool)> {
+        let params = self.increase_params(1, 1, None, 300_000);
+        self.b.run(gmsol_store::ID, &[sg(owner), ro(self.store), ro(self.market), rw(self.position_key(&owner)), ro(SYS)], &gmsol_store::instruction::PreparePosition { params }.data())
+    }
+    fn prepare_trade_event(&mut self) -> std::result::Result<(), (ProgramError, bool)> {
+        let k = self.keeper;
+        self.b.run(gmsol_store::ID, &[sg(k), ro(self.store), rw(self.trade_event_key()), ro(SYS)], &gmsol_store::instruction::PrepareTradeEventBuffer { index: 0 }.data())
+    }
+    fn create_increase_order(&mut self, owner: Pubkey, receiver: Pubkey, nonce: [u8; 32], collateral: u64, size: u128, acceptable: Option<u128>, exec_lamports: u64) -> std::result::Result<PosOrd, (ProgramError, bool)> {
+        let key = self.order_key(&owner, &nonce);
+        let params = self.increase_params(collateral, size, acceptable, exec_lamports);
+        let pid = gmsol_store::ID;
+        let (l, s) = (self.long, self.short);
+        let metas = [sg(owner), ro(receiver), ro(self.store), rw(self.market), rw(self.user_header_key(&owner)), rw(key), rw(self.position_key(&owner)),
+            ro(l), ro(l), ro(l), ro(s), rw(ata(&key, &l)), ro(pid), rw(ata(&key, &l)), rw(ata(&key, &s)), rw(ata(&owner, &l)),
+            ro(SYS), ro(spl_token::ID), ro(ata_prog::ID), ro(pid), ro(pid), ro(pid), ro(pid), ro(self.event_authority), ro(pid)];
+        self.b.run(pid, &metas, &gmsol_store::instruction::CreateOrderV2 { nonce, params, callback_version: None }.data())?;
+        Ok(PosOrd { owner, receiver, key, exec_lamports })
+    }
+    fn execute_increase_order(&mut self, authority: Pubkey, o: &PosOrd, execution_fee: u64, throw: bool) -> std::result::Result<(), (ProgramError, bool)> {
+        let pid = gmsol_store::ID;
+        let (l, s) = (self.long, self.short);
+        let metas = [sg(authority), rw(self.store), ro(self.token_map), rw(self.oracle), rw(self.market), rw(o.owner), rw(self.user_header_key(&o.owner)), rw(o.key), rw(self.position_key(&o.owner)), rw(self.trade_event_key()),
+            ro(l), ro(pid), ro(l), ro(s), rw(ata(&o.key, &l)), ro(pid), rw(ata(&o.key, &l)), rw(ata(&o.key, &s)), rw(self.long_vault), ro(pid), rw(self.long_vault), rw(self.short_vault),
+            ro(spl_token::ID), ro(SYS), ro(pid), ro(pid), ro(pid), ro(pid), ro(self.event_authority), ro(pid), ro(self.feeds[0]), ro(self.feeds[1])];
+        self.b.run(pid, &metas, &gmsol_store::instruction::ExecuteIncreaseOrSwapOrderV2 { recent_timestamp: NOW.load(Ordering::SeqCst), execution_fee, throw_on_execution_error: throw }.data())
+    }
+    fn close_increase_order(&mut self, executor: Pubkey, o: &PosOrd) -> std::result::Result<(), (ProgramError, bool)> {
+        let pid = gmsol_store::ID;
+        let (l, s) = (self.long, self.short);
+        let metas = [sg(executor), rw(self.store), rw(self.store_wallet), rw(o.owner), rw(o.receiver), rw(o.owner), rw(self.user_header_key(&o.owner)), ro(pid), rw(o.key),
+            ro(l), ro(pid), ro(l), ro(s), rw(ata(&o.key, &l)), ro(pid), rw(ata(&o.key, &l)), rw(ata(&o.key, &s)),
+            rw(ata(&o.owner, &l)), ro(pid), rw(ata(&o.receiver, &l)), rw(ata(&o.receiver, &s)), ro(SYS), ro(spl_token::ID), ro(ata_prog::ID), ro(pid), ro(pid), ro(pid), ro(pid), ro(self.event_authority), ro(pid)];
+        self.b.run(pid, &metas, &gmsol_store::instruction::CloseOrderV2 { reason: "test".to_string() }.data())
+    }
+}
+
+fn smoke() {
+    let mut w = World::new();
+    let u = w.user(0, 1_000_000_000_000, 5_000_000_000);
+    let (l, sh, mt) = (w.long, w.short, w.market_token);
+    w.prepare_user(u).unwrap();
+    let dk = w.deposit_key(&u, &[9; 32]);
+    for m in [mt, l, sh] { w.prepare_escrow(u, dk, m).unwrap(); }
+    let d = w.create_deposit(u, u, [9; 32], 20_000_000_000, 3_000_000_000, 0, 500_000, true, true).unwrap();
+    w.set_prices(150_00000000, 1_00000000, NOW.load(Ordering::SeqCst));
+    let feeds = w.feeds;
+    w.execute_deposit(w.keeper, &d, 300_000, true, true, true, &feeds).unwrap();
+    w.close_deposit(u, &d, true, true).unwrap();
+    println!("prepare position: {:?}", w.prepare_position(u));
+    println!("prepare trade event: {:?}", w.prepare_trade_event());
+    let ok = w.order_key(&u, &[3; 32]);
+    for m in [l, sh] { w.prepare_escrow(u, ok, m).unwrap(); }
+    let unit = 100_000_000_000_000_000_000u128;
+    let r = w.create_increase_order(u, u, [3; 32], 1_000_000_000, 300 * unit, None, 400_000);
+    println!("create increase: {:?} cpis={:?}", r.as_ref().map(|_| ()), CPI_LOG.lock().unwrap());
+    let Ok(o) = r else { return };
+    w.set_prices(150_00000000, 1_00000000, NOW.load(Ordering::SeqCst));
+    let r = w.execute_increase_order(w.keeper, &o, 200_000, true);
+    println!("exec increase: {r:?} cpis={:?} events={}", CPI_LOG.lock().unwrap(), EVENTS.lock().unwrap().len());
+    println!("order escrow long {:?} vaults {:?} rec {:?}", token_amount(&w.b, &ata(&ok, &l)), (token_amount(&w.b, &w.long_vault), token_amount(&w.b, &w.short_vault)), { let m: Box<gmsol_store::states::Market> = Box::new(pod(&w.b.get(&w.market).data)); (m.state().long_token_balance_raw(), m.state().short_token_balance_raw()) });
+    let r = w.close_increase_order(u, &o);
+    println!("close increase: {r:?} cpis={:?}", CPI_LOG.lock().unwrap());
+}
+
 // ---------------------------------------------------------------- harness: protocol, oracle, generator
 
 const NUSERS: u8 = 3;
@@ -522,12 +603,12 @@ const LONG0: u64 = 1_000_000_000_000;
 const SHORT0: u64 = 5_000_000_000;
 
 #[derive(Clone)]
-enum Handle { D(Dep), W(Wd), O(Ord) }
+enum Handle { D(Dep), W(Wd), O(Ord), P(PosOrd) }
 impl Handle {
-    fn key(&self) -> Pubkey { match self { Handle::D(d) => d.key, Handle::W(w) => w.key, Handle::O(o) => o.key } }
-    fn owner(&self) -> Pubkey { match self { Handle::D(d) => d.owner, Handle::W(w) => w.owner, Handle::O(o) => o.owner } }
-    fn receiver(&self) -> Pubkey { match self { Handle::D(d) => d.receiver, Handle::W(w) => w.receiver, Handle::O(o) => o.receiver } }
-    fn exec_lamports(&self) -> u64 { match self { Handle::D(d) => d.exec_lamports, Handle::W(w) => w.exec_lamports, Handle::O(o) => o.exec_lamports } }
+    fn key(&self) -> Pubkey { match self { Handle::D(d) => d.key, Handle::W(w) => w.key, Handle::O(o) => o.key, Handle::P(o) => o.key } }
+    fn owner(&self) -> Pubkey { match self { Handle::D(d) => d.owner, Handle::W(w) => w.owner, Handle::O(o) => o.owner, Handle::P(o) => o.owner } }
+    fn receiver(&self) -> Pubkey { match self { Handle::D(d) => d.receiver, Handle::W(w) => w.receiver, Handle::O(o) => o.receiver, Handle::P(o) => o.receiver } }
+    fn exec_lamports(&self) -> u64 { match self { Handle::D(d) => d.exec_lamports, Handle::W(w) => w.exec_lamports, Handle::O(o) => o.exec_lamports, Handle::P(o) => o.exec_lamports } }
 }
 type Id = (u8, char, u8);
 struct Sid { w: World, now: i64, acts: BTreeMap<Id, Handle>, changes: BTreeMap<Id, u32>, fees: [u128; 3], lam0: [u128; 3] }
@@ -536,7 +617,7 @@ fn parse_id(t: &str) -> Option<Id> {
     let p: Vec<&str> = t.split('.').collect();
     if p.len() != 3 || p[1].len() != 1 { return None; }
     let (u, k, i) = (p[0].parse::<u8>().ok()?, p[1].chars().next()?, p[2].parse::<u8>().ok()?);
-    (u < NUSERS && i < NSLOTS && "dwst".contains(k)).then_some((u, k, i))
+    (u < NUSERS && i < NSLOTS && "dwsti".contains(k)).then_some((u, k, i))
 }
 fn user_key(u: u8) -> Pubkey { Pubkey::new_from_array([100 + u; 32]) }
 fn nonce_of(k: char, i: u8) -> [u8; 32] { [(k as u8).wrapping_mul(7).wrapping_add(i + 1); 32] }
@@ -580,7 +661,8 @@ fn totals(w: &World) -> BTreeMap<Pubkey, u128> {
 fn owner_side_lamports(w: &World, u: u8) -> u64 {
     let owner = user_key(u);
     let mut keys: Vec<Pubkey> = vec![owner];
-    for k in ['d', 'w', 's', 't'] { for i in 0..NSLOTS { keys.push(action_key(w, (u, k, i))); } }
+    for k in ['d', 'w', 's', 't', 'i'] { for i in 0..NSLOTS { keys.push(action_key(w, (u, k, i))); } }
+    keys.push(w.position_key(&owner));
     keys.dedup();
     let mut seen: Vec<Pubkey> = Vec::new();
     let mut total = w.b.get(&w.user_header_key(&owner)).lamports;
@@ -602,12 +684,12 @@ fn invariants(s: &Sid, before_tot: &BTreeMap<Pubkey, u128>, req: &str, out: &mut
 
 fn run_exec(w: &mut World, auth: Pubkey, h: &Handle, fee: u64, throw: bool) -> std::result::Result<(), (ProgramError, bool)> {
     let feeds = w.feeds;
-    match h { Handle::D(d) => w.execute_deposit(auth, d, fee, throw, true, true, &feeds), Handle::W(x) => w.execute_withdrawal(auth, x, fee, throw), Handle::O(o) => w.execute_swap_order(auth, o, fee, throw) }
+    match h { Handle::D(d) => w.execute_deposit(auth, d, fee, throw, true, true, &feeds), Handle::W(x) => w.execute_withdrawal(auth, x, fee, throw), Handle::O(o) => w.execute_swap_order(auth, o, fee, throw), Handle::P(o) => w.execute_increase_order(auth, o, fee, throw) }
 }
 /// the amounts only the pool maths decides: (x, y) = deposit (minted, 0) | withdrawal (out long, out short) | swap (out, 0)
 fn result_amounts(w: &World, id: Id, key: &Pubkey) -> (u64, u64) {
     let e = esc(w, key);
-    match id.1 { 'd' => (e.2, 0), 'w' => (e.0, e.1), 's' => (e.1, 0), _ => (e.0, 0) }
+    match id.1 { 'd' => (e.2, 0), 'w' => (e.0, e.1), 's' => (e.1, 0), 't' => (e.0, 0), _ => (0, 0) }
 }
 
 fn exec(ss: &mut BTreeMap<String, Sid>, req: &str, out: &mut Out) -> (String, bool) {
@@ -619,7 +701,8 @@ fn exec(ss: &mut BTreeMap<String, Sid>, req: &str, out: &mut Out) -> (String, bo
         if t.len() != 3 { return bad(); }
         NOW.store(1_700_000_000, Ordering::SeqCst);
         let mut w = World::new();
-        for u in 0..NUSERS { let k = w.user(u, LONG0, SHORT0); w.prepare_user(k).expect("prepare_user"); let mt = w.market_token; w.prepare_escrow(k, k, mt).expect("mt ata"); }
+        for u in 0..NUSERS { let k = w.user(u, LONG0, SHORT0); w.prepare_user(k).expect("prepare_user"); let mt = w.market_token; w.prepare_escrow(k, k, mt).expect("mt ata"); w.prepare_position(k).expect("prepare_position"); }
+        w.prepare_trade_event().expect("trade event buffer");
         let lam0 = [0u8, 1, 2].map(|u| owner_side_lamports(&w, u) as u128);
         let s = Sid { w, now: 1_700_000_000, acts: BTreeMap::new(), changes: BTreeMap::new(), fees: [0; 3], lam0 };
         let d = digest(&s);
@@ -646,7 +729,7 @@ fn exec(ss: &mut BTreeMap<String, Sid>, req: &str, out: &mut Out) -> (String, bo
         "create" => {
             if t.len() != 9 { return bad(); }
             let (Some(id), Some(a), Some(b), Some(flag), Some(el), Some(rc)) = (parse_id(&format!("{}.{}.{}", t[3], t[4], t[5])), t[6].parse::<u64>().ok(), t[7].parse::<u64>().ok(), t[8].split(':').next().and_then(|x| x.parse::<u8>().ok()), t[8].split(':').nth(1).and_then(|x| x.parse::<u64>().ok()), t[8].split(':').nth(2).and_then(|x| x.parse::<u8>().ok())) else { return bad() };
-            if flag > 1 || el > 50_000_000 || (id.1 != 'd' && b != 0) || rc >= NUSERS || t[8].split(':').count() != 3 { return bad(); }
+            if flag > 1 || el > 50_000_000 || (id.1 != 'd' && id.1 != 'i' && b != 0) || (id.1 == 'i' && b > 100_000_000) || rc >= NUSERS || t[8].split(':').count() != 3 { return bad(); }
             let receiver = user_key(rc);
             let owner = user_key(id.0);
             let key = action_key(&s.w, id);
@@ -654,16 +737,19 @@ fn exec(ss: &mut BTreeMap<String, Sid>, req: &str, out: &mut Out) -> (String, bo
             let (lm, sm, mt) = (s.w.long, s.w.short, s.w.market_token);
             let mints: Vec<Pubkey> = match id.1 { 'd' | 'w' => vec![mt, lm, sm], _ => vec![lm, sm] };
             for m in mints { if !s.w.b.m.contains_key(&ata(&key, &m)) { let _ = s.w.prepare_escrow(owner, key, m); } }
+            // a soft-failed increase on an empty position closes the position account: (re-)prepare it like the escrows
+            if id.1 == 'i' && !s.w.b.m.contains_key(&s.w.position_key(&owner)) { let _ = s.w.prepare_position(owner); }
             let ub = (bal(&s.w, &owner, &lm), bal(&s.w, &owner, &sm), bal(&s.w, &owner, &mt));
             let occupied = s.w.b.m.contains_key(&key);
             let big = flag == 1;
             let r = match id.1 {
                 'd' => s.w.create_deposit(owner, receiver, nonce, a, b, if big { u64::MAX } else { 0 }, el, true, true).map(Handle::D),
                 'w' => s.w.create_withdrawal(owner, receiver, nonce, a, if big { u64::MAX } else { 0 }, 0, el).map(Handle::W),
+                'i' => s.w.create_increase_order(owner, receiver, nonce, a, b as u128 * 100_000_000_000_000_000_000u128, if big { Some(1) } else { None }, el).map(Handle::P),
                 k => s.w.create_swap_order(owner, receiver, nonce, k == 's', a, if big { u64::MAX as u128 } else { 0 }, el).map(Handle::O),
             };
             match r {
-                Err(_) => (format!("err | {}", digest(s)), false),
+                Err(e) => { if std::env::var("HARNESS_DEBUG").is_ok() { eprintln!("create failed: {:?} cpis={:?} pos={:?} uh={:?} key={:?} escL={:?} escS={:?}", e.0, CPI_LOG.lock().unwrap(), s.w.b.get(&s.w.position_key(&owner)).owner == gmsol_store::ID, s.w.b.get(&s.w.user_header_key(&owner)).owner == gmsol_store::ID, s.w.b.m.contains_key(&key), s.w.b.m.contains_key(&ata(&key, &lm)), s.w.b.m.contains_key(&ata(&key, &sm))); } (format!("err | {}", digest(s)), false) }
                 Ok(h) => {
                     if occupied { out.oracle_fail("an action account was created over an existing one", req); }
                     let e = esc(&s.w, &key);
@@ -680,16 +766,19 @@ fn exec(ss: &mut BTreeMap<String, Sid>, req: &str, out: &mut Out) -> (String, bo
         "exec" => {
             if t.len() != 10 { return bad(); }
             let (Some(auth), Some(id), Some(fee), Some(throw), Some(dfail), Some(dx), Some(dy)) = (who(&s.w, t[3]), parse_id(t[4]), t[5].parse::<u64>().ok(), t[6].parse::<u8>().ok(), t[7].parse::<u8>().ok(), t[8].parse::<u64>().ok(), t[9].parse::<u64>().ok()) else { return bad() };
-            if throw > 1 || dfail > 1 { return bad(); }
+            if throw > 1 || dfail > 2 || (dfail == 2 && id.1 != 'i') { return bad(); }
             let Some(h) = s.acts.get(&id).cloned() else { return (format!("err | {}", digest(s)), false) };
             let key = h.key();
             let st0 = act_state(&s.w, id);
             let (e0, v0, sup0) = (esc(&s.w, &key), vaults(&s.w), mint_supply(&s.w.b, &s.w.market_token));
+            let pos_size = |w: &World| -> u128 { let a = w.b.get(&w.position_key(&h.owner())); if a.data.is_empty() { 0 } else { let p: gmsol_store::states::position::Position = pod(&a.data); p.state.size_in_usd } };
+            let ps0 = pos_size(&s.w);
             let (al0, kl0) = (s.w.b.get(&key).lamports, s.w.b.get(&auth).lamports);
             let r = run_exec(&mut s.w, auth, &h, fee, throw == 1);
             match r {
                 Err(_) => (format!("err | {}", digest(s)), false),
                 Ok(()) => {
+                    if dfail == 2 { out.oracle_fail("an execution declared as a hard failure succeeded", req); }
                     let st1 = act_state(&s.w, id);
                     let (e1, v1, sup1) = (esc(&s.w, &key), vaults(&s.w), mint_supply(&s.w.b, &s.w.market_token));
                     let paid = s.w.b.get(&auth).lamports - kl0;
@@ -703,9 +792,12 @@ fn exec(ss: &mut BTreeMap<String, Sid>, req: &str, out: &mut Out) -> (String, bo
                                 'd' => e1.0 == 0 && e1.1 == 0 && v1.0 - v0.0 == e0.0 && v1.1 - v0.1 == e0.1 && sup1 - sup0 == e1.2 && e0.2 == 0,
                                 'w' => e1.2 == 0 && sup0 - sup1 == e0.2 && v0.0 - v1.0 == e1.0 - e0.0 && v0.1 - v1.1 == e1.1 - e0.1,
                                 's' => e1.0 == 0 && v1.0 - v0.0 == e0.0 && v0.1 - v1.1 == e1.1 - e0.1 && sup1 == sup0,
+                                'i' => e1 == (0, 0, 0) && v1.0 - v0.0 == e0.0 && v1.1 == v0.1 && sup1 == sup0,
                                 _ => e1.1 == 0 && v1.1 - v0.1 == e0.1 && v0.0 - v1.0 == e1.0 - e0.0 && sup1 == sup0,
                             };
                             if !ok { out.oracle_fail("completed action: tokens did not move exactly between escrow, vault and supply", req); }
+                            if id.1 == 'i' && pos_size(&s.w) <= ps0 { out.oracle_fail("completed increase order did not grow the position", req); }
+                            if id.1 != 'i' && pos_size(&s.w) != ps0 { out.oracle_fail("a non-position action changed a position", req); }
                             if (x, y) != (dx, dy) || dfail == 1 { out.oracle_fail(&format!("result amounts ({x},{y}) differ from the declared ({dx},{dy}) / declared a market failure"), req); }
                             out.stat(&format!("exec.completed.{}", id.1));
                         }
@@ -737,7 +829,7 @@ fn exec(ss: &mut BTreeMap<String, Sid>, req: &str, out: &mut Out) -> (String, bo
             let ub = (bal(&s.w, &owner, &lm), bal(&s.w, &owner, &sm), bal(&s.w, &owner, &mt));
             let rb = (bal(&s.w, &receiver, &lm), bal(&s.w, &receiver, &sm), bal(&s.w, &receiver, &mt));
             let ledger0 = s.w.b.clone();
-            let r = match &h { Handle::D(d) => s.w.close_deposit(ex, d, true, true), Handle::W(x) => s.w.close_withdrawal(ex, x), Handle::O(o) => s.w.close_order(ex, o) };
+            let r = match &h { Handle::D(d) => s.w.close_deposit(ex, d, true, true), Handle::W(x) => s.w.close_withdrawal(ex, x), Handle::O(o) => s.w.close_order(ex, o), Handle::P(o) => s.w.close_increase_order(ex, o) };
             match r {
                 Err(_) => {
                     if ex == owner && st0.is_some() { out.oracle_fail("the owner could not close their own action", req); }
@@ -753,7 +845,7 @@ fn exec(ss: &mut BTreeMap<String, Sid>, req: &str, out: &mut Out) -> (String, bo
                     let ua = (bal(&s.w, &owner, &lm), bal(&s.w, &owner, &sm), bal(&s.w, &owner, &mt));
                     let ra = (bal(&s.w, &receiver, &lm), bal(&s.w, &receiver, &sm), bal(&s.w, &receiver, &mt));
                     // input-side escrow (refunds) belongs to the OWNER, output-side escrow (proceeds) to the RECEIVER
-                    let (refund, proceeds) = match id.1 { 'd' => ((e0.0, e0.1, 0), (0, 0, e0.2)), 'w' => ((0, 0, e0.2), (e0.0, e0.1, 0)), 's' => ((e0.0, 0, 0), (0, e0.1, 0)), _ => ((0, e0.1, 0), (e0.0, 0, 0)) };
+                    let (refund, proceeds) = match id.1 { 'd' => ((e0.0, e0.1, 0), (0, 0, e0.2)), 'w' => ((0, 0, e0.2), (e0.0, e0.1, 0)), 's' => ((e0.0, 0, 0), (0, e0.1, 0)), 't' => ((0, e0.1, 0), (e0.0, 0, 0)), _ => ((e0.0, 0, 0), (0, e0.1, 0)) };
                     if receiver == owner {
                         if (ua.0 - ub.0, ua.1 - ub.1, ua.2 - ub.2) != e0 { out.oracle_fail("escrowed tokens did not all go home to the owner", req); }
                     } else {
@@ -783,7 +875,7 @@ fn gen_next(r: &mut Rng, ss: &BTreeMap<String, Sid>, g: &mut Gen) -> String {
     let sid = format!("w{}", g.sid);
     let s = &ss[&sid];
     let live: Vec<(Id, Option<u8>)> = s.acts.keys().filter(|id| s.w.b.m.contains_key(&action_key(&s.w, **id))).map(|id| (*id, act_state(&s.w, *id))).collect();
-    let rand_id = |r: &mut Rng| (r.below(NUSERS as u64) as u8, ['d', 'w', 's', 't'][r.below(4) as usize], r.below(NSLOTS as u64) as u8);
+    let rand_id = |r: &mut Rng| (r.below(NUSERS as u64) as u8, ['d', 'w', 's', 't', 'i'][r.below(5) as usize], r.below(NSLOTS as u64) as u8);
     let pick = |r: &mut Rng| if live.is_empty() || r.chance(1, 8) { (rand_id(r), None) } else { live[r.below(live.len() as u64) as usize] };
     let ids = |id: Id| format!("{}.{}.{}", id.0, id.1, id.2);
     match r.below(13) {
@@ -795,12 +887,13 @@ fn gen_next(r: &mut Rng, ss: &BTreeMap<String, Sid>, g: &mut Gen) -> String {
             let have_mt = bal(&s.w, &owner, &s.w.market_token);
             let pool = vaults(&s.w);
             // withdrawals / swaps need liquidity: prefer deposits while the pool is empty
-            let k = if pool.0 == 0 { if r.chance(5, 6) { 'd' } else { ['w', 's', 't'][r.below(3) as usize] } } else { match r.below(10) { 0 | 1 => 'd', 2 | 3 | 4 | 5 => if have_mt > 0 { 'w' } else { 'd' }, 6 | 7 => 's', _ => 't' } };
+            let k = if pool.0 == 0 { if r.chance(5, 6) { 'd' } else { ['w', 's', 't'][r.below(3) as usize] } } else { match r.below(12) { 0 | 1 => 'd', 2 | 3 | 4 | 5 => if have_mt > 0 { 'w' } else { 'd' }, 6 | 7 => 's', 8 | 9 => 'i', _ => 't' } };
             let i = if r.chance(5, 6) { (0..NSLOTS).find(|i| !live.iter().any(|l| l.0 == (u, k, *i))).unwrap_or(r.below(NSLOTS as u64) as u8) } else { r.below(NSLOTS as u64) as u8 };
             let (a, b) = match k {
                 'd' => (match r.below(6) { 0 => 0, 1 => LONG0 + 1, _ => r.range(1, 5_000_000_000) }, match r.below(6) { 0 => 0, 1 => SHORT0 + 1, _ => r.range(1, 500_000_000) }),
                 'w' => (match r.below(6) { 0 => 0, 1 => have_mt.saturating_add(1), 2 => have_mt, _ => if have_mt == 0 { r.range(1, 1000) } else { r.next() % have_mt + 1 } }, 0),
                 's' => (match r.below(8) { 0 => 0, 1 => LONG0 + 1, 2 => r.range(1, 20_000_000_000), _ => r.range(1, 300_000_000) }, 0),
+                'i' => (match r.below(8) { 0 => 0, 1 => LONG0 + 1, 2 => r.range(1, 1000), _ => r.range(10_000_000, 500_000_000) }, match r.below(8) { 0 => 0, 1 => r.range(1, 5), 2 => r.range(10_000, 1_000_000), _ => r.range(5, 300) }),
                 _ => (match r.below(8) { 0 => 0, 1 => SHORT0 + 1, 2 => r.range(1, 3_000_000_000), _ => r.range(1, 50_000_000) }, 0),
             };
             let el = match r.below(8) { 0 => r.range(0, 299_999), _ => r.range(300_000, 5_000_000) };
@@ -822,7 +915,7 @@ fn gen_next(r: &mut Rng, ss: &BTreeMap<String, Sid>, g: &mut Gen) -> String {
                 if fresh { w2.set_prices(150_00000000, 1_00000000, s.now); }
                 if run_exec(&mut w2, auth, h, fee, false).is_ok() {
                     match act_state(&w2, id) { Some(1) => { (x, y) = result_amounts(&w2, id, &h.key()); } Some(2) => { f = 1; } _ => {} }
-                }
+                } else if id.1 == 'i' { f = 2; } // position orders: some pool-maths rejections are hard errors even without `throw`
             }
             let e = format!("l2 exec {sid} {whoo} {} {fee} {throw} {f} {x} {y}", ids(id));
             // after an execute, often a keeper (sometimes the receiver or the owner) closes that very action while it still holds escrow
@@ -848,6 +941,7 @@ fn main() {
     let mut out = Out::new();
     if std::env::var("HARNESS_DEBUG").is_err() { std::panic::set_hook(Box::new(|_| {})); }
     set_syscall_stubs(Box::new(Stubs));
+    if std::env::var("HARNESS_SMOKE").is_ok() { smoke(); return; }
     let mut ss: BTreeMap<String, Sid> = BTreeMap::new();
     let replay: Option<Vec<String>> = if cli.mode == "replay" { Some(read_requests(cli.file.as_deref().unwrap())) } else { None };
     let total = replay.as_ref().map(|v| v.len() as u64).unwrap_or(cli.n);
